@@ -1,7 +1,9 @@
 package rest
 
 import (
+	"errors"
 	"net/http"
+	"sync"
 	"time"
 
 	"github.com/gorilla/websocket"
@@ -32,11 +34,15 @@ var upgraderV2 = websocket.Upgrader{
 	WriteBufferSize: 1024,
 }
 
+var errListenerClosedV2 = errors.New("listener closed")
+
 // msgListenerV2 handles messages from the msghub
 type msgListenerV2 struct {
 	hub     *msghub.Hub                    // Global message hub.
 	c       chan *model.JSONMonitorEventV2 // Queue of incoming events.
 	mailbox string                         // Name of mailbox to monitor, "" == all mailboxes.
+	done    chan struct{}                  // Closed when this listener is shutting down.
+	once    sync.Once                      // Guards done.
 }
 
 // newMsgListenerV2 creates a listener and registers it.  Optional mailbox parameter will restrict
@@ -46,6 +52,7 @@ func newMsgListenerV2(hub *msghub.Hub, mailbox string) *msgListenerV2 {
 		hub:     hub,
 		c:       make(chan *model.JSONMonitorEventV2, 100),
 		mailbox: mailbox,
+		done:    make(chan struct{}),
 	}
 	hub.AddListener(ml)
 	return ml
@@ -59,12 +66,28 @@ func (ml *msgListenerV2) Receive(msg event.MessageMetadata) error {
 	}
 
 	// Enqueue for websocket.
-	ml.c <- &model.JSONMonitorEventV2{
+	return ml.enqueue(&model.JSONMonitorEventV2{
 		Variant: "message-stored",
 		Header:  metadataToHeader(&msg),
-	}
+	})
+}
 
-	return nil
+// enqueue hands an event to the socket writer.  It waits while the writer's buffer is full, but
+// never longer than it takes the writer to give up on its peer (write deadline) and close this
+// listener; a listener that is shutting down reports an error and is dropped by the hub.
+func (ml *msgListenerV2) enqueue(ev *model.JSONMonitorEventV2) error {
+	select {
+	case ml.c <- ev:
+		return nil
+	case <-ml.done:
+		return errListenerClosedV2
+	}
+}
+
+// shutdown tells the socket writer to stop.  The event channel is never closed, the hub may
+// still be sending to it.
+func (ml *msgListenerV2) shutdown() {
+	ml.once.Do(func() { close(ml.done) })
 }
 
 // Delete handles a deleted message.
@@ -75,15 +98,13 @@ func (ml *msgListenerV2) Delete(mailbox string, id string) error {
 	}
 
 	// Enqueue for websocket.
-	ml.c <- &model.JSONMonitorEventV2{
+	return ml.enqueue(&model.JSONMonitorEventV2{
 		Variant: "message-deleted",
 		Identifier: &model.JSONMessageIDV2{
 			Mailbox: mailbox,
 			ID:      id,
 		},
-	}
-
-	return nil
+	})
 }
 
 // WSReader makes sure the websocket client is still connected, discards any messages from client
@@ -136,14 +157,16 @@ func (ml *msgListenerV2) WSWriter(conn *websocket.Conn) {
 	// Handle messages from hub until msgListener is closed
 	for {
 		select {
-		case event, ok := <-ml.c:
+		case <-ml.done:
+			// msgListener closed, exit
+			if err := conn.SetWriteDeadline(time.Now().Add(writeWaitV2)); err != nil {
+				slog.Warn().Err(err).Msg("Failed to set write deadline for close")
+			}
+			_ = conn.WriteMessage(websocket.CloseMessage, []byte{})
+			return
+		case event := <-ml.c:
 			if err := conn.SetWriteDeadline(time.Now().Add(writeWaitV2)); err != nil {
 				slog.Warn().Err(err).Msg("Failed to set write deadline for msg")
-			}
-			if !ok {
-				// msgListener closed, exit
-				_ = conn.WriteMessage(websocket.CloseMessage, []byte{})
-				return
 			}
 			if conn.WriteJSON(event) != nil {
 				// Write failed
@@ -165,13 +188,8 @@ func (ml *msgListenerV2) WSWriter(conn *websocket.Conn) {
 
 // Close removes the listener registration
 func (ml *msgListenerV2) Close() {
-	select {
-	case <-ml.c:
-		// Already closed
-	default:
-		ml.hub.RemoveListener(ml)
-		close(ml.c)
-	}
+	ml.shutdown()
+	ml.hub.RemoveListener(ml)
 }
 
 // MonitorAllMessagesV2 is a web handler which upgrades the connection to a websocket and notifies
